@@ -44,8 +44,7 @@ def token_of(body, t):
     if name in ('parse', 'parse_spanned'):
         return ('lit', _str_arg(body, t))
     if name == 'push_lifetime':
-        s = [a.get('str') for a in t['args'] if 'str' in a]
-        return ('lifetime', s[0] if s else None)
+        return ('lifetime', _str_arg(body, t))
     return ('other', name)
 
 
